@@ -47,6 +47,8 @@ def cut_features(g, part, case):
     base = case['base']
     if base.number_of_edges() >= len(base) and len(base) > 0:
         f.add('base_ring')
+    if base.number_of_edges() >= len(base) + 1:
+        f.add('base_two_or_more_cycles')
     for name, toks in case['tokens'].items():
         prev = None
         for i, t in enumerate(toks):
@@ -79,6 +81,8 @@ def random_cut_case(rng, max_heavy, kinds=('$', '><'), max_parts=6, mol_kw=None,
                 break
         nparts = rng.randint(2, min(len(g), 4))
         keep = rng.random() < 0.7
+        if not keep and rng.random() < 0.5:
+            nparts = rng.randint(4, min(len(g), 9))      # ring systems spread over many fragments: base graphs with several cycles
         if render_opts is None:
             render_opts = {'start_on_ring_desc': 0.9, 'leading': rng.random() < 0.15,
                            'desc_pos': rng.choice(['after', 'mixed', 'before', None]),
@@ -90,6 +94,10 @@ def random_cut_case(rng, max_heavy, kinds=('$', '><'), max_parts=6, mol_kw=None,
         cap = max_parts if rng.random() < 0.85 else max(max_parts, 14)
         nparts = rng.randint(1, min(len(g), cap))
     part = M.partition(rng, g, k=nparts, keep_rings=keep)
+    if ringy and len(g) <= 10 and g.number_of_edges() >= len(g) + 1 and rng.random() < 0.4:
+        # every atom a fragment of its own: the base graph is the (poly)cyclic molecule graph itself,
+        # so its spelling has nodes that close several rings at once
+        part = {n: i for i, n in enumerate(g.nodes)}
     nparts = max(part.values()) + 1
     case = M.build_case(rng, g, part, kinds=kinds, render_opts=render_opts or {'explicit_single': rng.choice([0.0, 0.1]), 'desc_after_branch': rng.choice([0.0, 0.0, 0.5])})
     if case is None:
